@@ -14,7 +14,46 @@ fn panel() -> Vec<Value> {
     v.push(json!({"a": [{"a": 1, "b": 1}, {"a": "x", "b": 2}, [1, 2, [3]], "x"], "b": {"a": 1, "p": "x"}, "p": "x", "c": 1, "_b1": [0]}));
     v.push(json!([[1, 2, 3], {"a": [1, 2, 3], "b": 15}, {"a": {"a": "s", "p": "s"}, "b": "y"}, 15, "x", "y", true, null, 1]));
     v.push(json!({"a": "s", "b": 1, "p": "s"}));
+    // the same documents with decoy members whose NAMES are the spellings of their siblings' names (`'a'`, `"a"`,
+    // `.a`, `['a']`): no spelling of a name selector may pick them up, every spelling of a wildcard must
+    let n = v.len();
+    for k in 0..n {
+        if ser_has_object(&v[k]) {
+            let d = with_decoys(&v[k]);
+            v.push(d);
+        }
+    }
     v
+}
+
+fn ser_has_object(v: &Value) -> bool {
+    match v {
+        Value::Object(m) => !m.is_empty(),
+        Value::Array(a) => a.iter().any(ser_has_object),
+        _ => false,
+    }
+}
+
+fn with_decoys(v: &Value) -> Value {
+    match v {
+        Value::Array(a) => Value::Array(a.iter().map(with_decoys).collect()),
+        Value::Object(m) => {
+            let mut out = serde_json::Map::new();
+            for (k, _) in m {
+                out.insert(format!("'{}'", k), json!("decoy-single-quoted"));
+                out.insert(format!("\"{}\"", k), json!(["decoy-double-quoted"]));
+            }
+            for (k, x) in m {
+                out.insert(k.clone(), with_decoys(x));
+            }
+            for (k, _) in m {
+                out.insert(format!(".{}", k), json!({"a": "decoy-dotted"}));
+                out.insert(format!("['{}']", k), json!(1));
+            }
+            Value::Object(out)
+        }
+        other => other.clone(),
+    }
 }
 
 fn ids_only(o: &ImplOut) -> Result<Vec<u32>, String> {
